@@ -146,6 +146,22 @@ pub fn san_move(d: &SanData, check: u8) -> Option<san::Move> {
     })
 }
 
+/// Contract of the unsafe `Make` wrappers, checked against the board the value is applied
+/// to: `Unchecked` only for a move that is legal there (model and `Move::validate`),
+/// `TryUnchecked` only for a move that is semilegal there (model and library generator).
+pub fn unsafe_like_ok(info: &crate::world::Info, board: &Board, ml: &MoveLike) -> bool {
+    match ml {
+        MoveLike::Unchecked(r) => {
+            info.legal.contains(r) && move_of(r).map_or(false, |mv| mv.validate(board).is_ok())
+        }
+        MoveLike::TryUnchecked(r) => {
+            info.pseudo.contains(r)
+                && move_of(r).map_or(false, |mv| owlchess::movegen::semilegal::gen_all(board).contains(&mv))
+        }
+        _ => true,
+    }
+}
+
 /// `chain.push(x)`. `None`: the argument cannot be constructed through the safe API
 /// (the operation is inapplicable and nothing was called).
 pub fn push_like<R: Repeat>(c: &mut BaseMoveChain<R>, ml: &MoveLike) -> Option<Result<(), String>> {
@@ -160,6 +176,9 @@ pub fn push_like<R: Repeat>(c: &mut BaseMoveChain<R>, ml: &MoveLike) -> Option<R
         }
         MoveLike::UciStr(s) => c.push(make::Uci(s.as_str())).map_err(|e| e.to_string()),
         MoveLike::SanStr(s) => c.push(make::San(s.as_str())).map_err(|e| e.to_string()),
+        // the caller has established the contract of the unsafe constructors (see `unsafe_like_ok`)
+        MoveLike::Unchecked(r) => c.push(unsafe { make::Unchecked::new(move_of(r)?) }).map_err(|e| e.to_string()),
+        MoveLike::TryUnchecked(r) => c.push(unsafe { make::TryUnchecked::new(move_of(r)?) }).map_err(|e| e.to_string()),
     })
 }
 
@@ -176,6 +195,8 @@ pub fn make_raw_like(b: &mut Board, ml: &MoveLike) -> Option<Result<(Move, RawUn
         }
         MoveLike::UciStr(s) => make::Uci(s.as_str()).make_raw(b).map_err(|e| e.to_string()),
         MoveLike::SanStr(s) => make::San(s.as_str()).make_raw(b).map_err(|e| e.to_string()),
+        MoveLike::Unchecked(r) => unsafe { make::Unchecked::new(move_of(r)?) }.make_raw(b).map_err(|e| e.to_string()),
+        MoveLike::TryUnchecked(r) => unsafe { make::TryUnchecked::new(move_of(r)?) }.make_raw(b).map_err(|e| e.to_string()),
     })
 }
 
@@ -192,5 +213,7 @@ pub fn make_like(b: &Board, ml: &MoveLike) -> Option<Result<Board, String>> {
         }
         MoveLike::UciStr(s) => b.make_move(make::Uci(s.as_str())).map_err(|e| e.to_string()),
         MoveLike::SanStr(s) => b.make_move(make::San(s.as_str())).map_err(|e| e.to_string()),
+        MoveLike::Unchecked(r) => b.make_move(unsafe { make::Unchecked::new(move_of(r)?) }).map_err(|e| e.to_string()),
+        MoveLike::TryUnchecked(r) => b.make_move(unsafe { make::TryUnchecked::new(move_of(r)?) }).map_err(|e| e.to_string()),
     })
 }
